@@ -232,6 +232,37 @@ pub fn gen_scripts(r: &mut Rng, l: &Layout, handles: usize) -> Vec<Vec<CStep>> {
         .collect()
 }
 
+/// Two handles on the SAME ZipCrypto entry: one reads it to the end with the right password, the other with a wrong
+/// password that passes the one-byte check (searched here, on the built image). Whatever the first left behind in
+/// state the handles share, the second must observe what it observes alone (a checksum error, as a rule).
+pub fn add_password_pair(s: u64, l: &Layout, scripts: &mut Vec<Vec<CStep>>) {
+    let mut r = Rng::derive(s, "password-pair");
+    if scripts.len() < 2 || !r.chance(1, 5) {
+        return;
+    }
+    let b = build(l);
+    for (t, ei) in b.order.iter().enumerate() {
+        let e = &l.entries[*ei];
+        if let Some(Enc::ZipCrypto { pw, infozip }) = &e.enc {
+            let info = &b.infos[t];
+            if info.csize < 12 {
+                continue;
+            }
+            let start = b.abs(info.data_start) as usize;
+            if start + 12 > b.image.len() {
+                continue;
+            }
+            let expect = if *infozip { (e.dos.1 >> 8) as u8 } else { (info.crc >> 24) as u8 };
+            if let Some(w) = super::crypt::wrong_password(&b.image[start..start + 12], &pw.0, expect, true, s ^ t as u64) {
+                let (first, second) = if r.chance(1, 2) { (0, 1) } else { (1, 0) };
+                scripts[first].splice(0..0, [CStep::OpenDecrypt(t, pw.clone()), CStep::ReadToEnd, CStep::Close]);
+                scripts[second].splice(0..0, [CStep::OpenDecrypt(t, crate::content::Hex(w)), CStep::ReadToEnd, CStep::Close]);
+                return;
+            }
+        }
+    }
+}
+
 pub fn gen_clone_layout(r: &mut Rng) -> Layout {
     let mut l = gen_layout(r, 5, *r.clone().pick(&[16u64, 300, 5000, 100_000]), true);
     l.trailing = 0;
@@ -264,7 +295,8 @@ impl Scenario for Clones {
         let mut r = Rng::derive(s, "workload");
         let l = gen_clone_layout(&mut r);
         let handles = r.range(2, 4) as usize;
-        let scripts = gen_scripts(&mut r, &l, handles);
+        let mut scripts = gen_scripts(&mut r, &l, handles);
+        add_password_pair(s, &l, &mut scripts);
         let faults = if Rng::derive(s, "swarm").chance(1, 3) { gen_handle_faults(&mut Rng::derive(s, "faults"), handles) } else { vec![] };
         // The source never fragments its reads here: how many bytes a decoder hands out before it reports a
         // corrupt stream (wrong password that passed the check byte, say) depends on how its input was chunked,
@@ -503,7 +535,8 @@ impl Scenario for ClonesShuttle {
             }
         }
         let handles = r.range(2, 4) as usize;
-        let scripts = gen_scripts(&mut r, &l, handles);
+        let mut scripts = gen_scripts(&mut r, &l, handles);
+        add_password_pair(s, &l, &mut scripts);
         let faults = if Rng::derive(s, "swarm").chance(1, 3) { gen_handle_faults(&mut Rng::derive(s, "faults"), handles) } else { vec![] };
         let damage = if Rng::derive(s, "damage").chance(1, 4) { let mut rd = Rng::derive(s, "damage2"); Some((rd.usize_below(8), rd.next_u64() >> 8)) } else { None };
         let case = ShuttleCase { layout: l, scripts, sched_seed: Rng::derive(s, "schedule").next_u64(), pct: if r.chance(1, 2) { Some(r.range(1, 5) as u32) } else { None }, faults, damage };
